@@ -3,6 +3,11 @@
 import json
 ALL = ["C%02d" % i for i in range(1, 21)]
 CHECKS = {
+ "C01": dict(
+   technique="bounded-exhaustive enumeration of all ordered policy tuples (effect x outcome atoms, n<=4/5) x construction path x id spelling x entity insertion order x call history (depth 3), each authorized by the real Authorizer and compared with a reference authorizer",
+   text="Model checking in the small-scope sense: every ordered tuple of permit/forbid x satisfied/unsatisfied/erroring policies up to the bound, in every construction path, id spelling and insertion order, and every call history of depth<=3 on one Authorizer, is executed on the real authorizer and compared with an independent reference authorizer (decision, reasons, erroring ids). The claim is a for-all over policy sets/orders/histories of a pure function, so exhaustive enumeration of the combinatorial core (3^n x 2^n mixes, tie-breaks between buckets) is the right level.",
+   note="Trusted base: refsem reference evaluator+authorizer, bind.rs. Bounds: n<=4 (quick) / n<=5 (thorough) policies, 4 environments, 4 construction paths, 3 id spellings. Hash-map iteration order is varied by rebuilding each set twice and fresh-thread replays, not enumerated.",
+   design="§3 C01"),
  "C02": dict(
    technique="bounded-exhaustive enumeration of expressions (operator x operand kind x error position, depth<=2 cores) run on the real evaluator through 7 arrival paths, compared case-by-case with an independent reference evaluator",
    text="Model checking in the small-scope sense: the whole finite space of (expression, environment) cases below the stated bound is enumerated and each case is executed on the real parser/evaluator/authorizer and compared with a reference evaluator written from the language definition (lock-step conformance). Right level because the property is a for-all over programs and inputs with no concurrency; exhaustive enumeration of operator x operand-kind x error-position reaches the off-diagonal cases examples miss.",
